@@ -5,6 +5,7 @@
 mod c01;
 mod c02;
 mod c03;
+mod c05;
 mod c09;
 mod c10;
 mod c11;
@@ -67,9 +68,23 @@ fn main() {
         }
     }));
     match args[1].to_ascii_lowercase().as_str() {
+        "genkeys" => {
+            // one-off: fixed RSA keys for the corpus (key generation is too slow to repeat on every run)
+            let dir = concat!(env!("CARGO_MANIFEST_DIR"), "/../corpus/rsa");
+            std::fs::create_dir_all(dir).unwrap();
+            for (bits, n) in [(2048usize, 3usize), (4096, 2)] {
+                for i in 0..n {
+                    let p = format!("{dir}/rsa{bits}_{i}.der");
+                    if !std::path::Path::new(&p).exists() {
+                        std::fs::write(&p, tok::gen_rsa_der(bits)).unwrap();
+                    }
+                }
+            }
+        }
         "c01" => c01::run(&ctx),
         "c02" => c02::run(&ctx),
         "c03" => c03::run(&ctx),
+        "c05" => c05::run(&ctx),
         "c09" => c09::run(&ctx),
         "c10" => c10::run(&ctx),
         "c11" => c11::run(&ctx),
